@@ -25,7 +25,7 @@ theorem Kw.inB_mono {n m : Nat} (h : n ≤ m) (k : Kw) (hk : k.inB n = true) : k
     simp only [Kw.inB, List.all_eq_true] at hk ⊢
     exact fun x hx => Slot.inB_mono h x (hk x hx)
 
-structure BInv (s : St) : Prop where
+structure BdInv (s : St) : Prop where
   hp : ∀ nd ∈ s.heap, nd.kw.inB s.heap.length = true
   lk : ∀ u st, aget s.lookup u = some st → st.converted < s.heap.length
   dg : ∀ p ∈ s.diagrams, p.2.content.inB s.heap.length = true
@@ -39,8 +39,8 @@ theorem mem_modify_cases (heap : List PNode) (r : Nat) (f : PNode → PNode) (nd
   · exact Or.inr ⟨heap[j], List.getElem_mem hj', rfl⟩
   · exact Or.inl (List.getElem_mem hj')
 
-theorem BInv_alloc (s : St) (pn : PNode) (h : BInv s) (hk : pn.kw.inB (s.heap.length + 1) = true) :
-    BInv (s.alloc pn).2 := by
+theorem BdInv_alloc (s : St) (pn : PNode) (h : BdInv s) (hk : pn.kw.inB (s.heap.length + 1) = true) :
+    BdInv (s.alloc pn).2 := by
   have hlen : (s.alloc pn).2.heap.length = s.heap.length + 1 := by simp [St.alloc]
   refine ⟨?_, ?_, ?_⟩
   · intro nd hnd
@@ -52,8 +52,8 @@ theorem BInv_alloc (s : St) (pn : PNode) (h : BInv s) (hk : pn.kw.inB (s.heap.le
   · intro u st hu; rw [hlen]; have := h.lk u st hu; omega
   · intro p hp; rw [hlen]; exact Slot.inB_mono (by omega) _ (h.dg p hp)
 
-theorem BInv_setKw (s : St) (r : Nat) (kw : Kw) (h : BInv s) (hk : kw.inB s.heap.length = true) :
-    BInv (s.setKw r kw) := by
+theorem BdInv_setKw (s : St) (r : Nat) (kw : Kw) (h : BdInv s) (hk : kw.inB s.heap.length = true) :
+    BdInv (s.setKw r kw) := by
   refine ⟨?_, ?_, ?_⟩
   · intro nd hnd
     rw [setKw_len]
@@ -63,20 +63,20 @@ theorem BInv_setKw (s : St) (r : Nat) (kw : Kw) (h : BInv s) (hk : kw.inB s.heap
   · intro u st hu; rw [setKw_len]; exact h.lk u st hu
   · intro p hp; rw [setKw_len]; exact h.dg p hp
 
-theorem node_inB {s : St} (h : BInv s) (r : Nat) : (s.node r).kw.inB s.heap.length = true := by
+theorem node_inB {s : St} (h : BdInv s) (r : Nat) : (s.node r).kw.inB s.heap.length = true := by
   cases hr : s.heap[r]? with
   | none => rw [node_kw_absent hr]; rfl
   | some a => rw [node_of_get hr]; exact h.hp a (List.mem_of_getElem? hr)
 
-theorem BInv_putChild (s : St) (p i r : Nat) (h : BInv s) (hr : r < s.heap.length) :
-    BInv (s.putChild p i (.ref r)) := by
+theorem BdInv_putChild (s : St) (p i r : Nat) (h : BdInv s) (hr : r < s.heap.length) :
+    BdInv (s.putChild p i (.ref r)) := by
   unfold St.putChild
   have hn := node_inB h p
   split
-  · exact BInv_setKw s p _ h (by simp [Kw.inB, Slot.inB, hr])
+  · exact BdInv_setKw s p _ h (by simp [Kw.inB, Slot.inB, hr])
   · rename_i l hl
     rw [hl] at hn
-    refine BInv_setKw s p _ h ?_
+    refine BdInv_setKw s p _ h ?_
     simp only [Kw.inB, List.all_eq_true] at hn ⊢
     intro x hx
     rcases List.mem_or_eq_of_mem_set hx with hx | rfl
@@ -84,14 +84,14 @@ theorem BInv_putChild (s : St) (p i r : Nat) (h : BInv s) (hr : r < s.heap.lengt
     · simp [Slot.inB, hr]
   · exact h
 
-theorem BInv_tables {s s' : St} (h : BInv s) (hh : s'.heap = s.heap)
+theorem BdInv_tables {s s' : St} (h : BdInv s) (hh : s'.heap = s.heap)
     (hl : ∀ u st, aget s'.lookup u = some st → st.converted < s.heap.length)
-    (hd : ∀ p ∈ s'.diagrams, p.2.content.inB s.heap.length = true) : BInv s' :=
+    (hd : ∀ p ∈ s'.diagrams, p.2.content.inB s.heap.length = true) : BdInv s' :=
   ⟨by rw [hh]; exact h.hp, by rw [hh]; exact hl, by rw [hh]; exact hd⟩
 
-theorem BInv_setL (s : St) (idx el : Nat) (st' : EState) (h : BInv s) (hc : st'.converted < s.heap.length) :
-    BInv (setL s idx el st') := by
-  refine BInv_tables h rfl ?_ h.dg
+theorem BdInv_setL (s : St) (idx el : Nat) (st' : EState) (h : BdInv s) (hc : st'.converted < s.heap.length) :
+    BdInv (setL s idx el st') := by
+  refine BdInv_tables h rfl ?_ h.dg
   intro u st hu
   by_cases hu' : u = el
   · subst hu'
@@ -100,22 +100,22 @@ theorem BInv_setL (s : St) (idx el : Nat) (st' : EState) (h : BInv s) (hc : st'.
   · simp only [setL, aget_aset_ne _ _ _ _ hu'] at hu
     exact h.lk u st hu
 
-theorem BInv_exNT (s : St) (pos : EState) (h : BInv s) : BInv (exNT s pos) := by
+theorem BdInv_exNT (s : St) (pos : EState) (h : BdInv s) : BdInv (exNT s pos) := by
   unfold exNT
   split
-  · exact BInv_putChild _ _ _ _ (BInv_alloc s _ h rfl) (by simp [newNT, St.alloc])
+  · exact BdInv_putChild _ _ _ _ (BdInv_alloc s _ h rfl) (by simp [newNT, St.alloc])
   · exact h
 
 theorem exNT_len (s : St) (pos : EState) : s.heap.length ≤ (exNT s pos).heap.length := (HS_exNT s pos).1
 
-theorem BInv_extract (s : St) (el : Nat) (h : BInv s) : BInv (extractIntoDiagram s el) := by
+theorem BdInv_extract (s : St) (el : Nat) (h : BdInv s) : BdInv (extractIntoDiagram s el) := by
   cases hl : aget s.lookup el with
   | none => rw [extract_none s el hl]; exact h
   | some pos =>
     rw [extract_eq' s el pos hl]
-    have h1 := BInv_exNT s pos h
+    have h1 := BdInv_exNT s pos h
     have hl1 : aget (exNT s pos).lookup el = some pos := by rw [exNT_lookup]; exact hl
-    refine BInv_tables h1 rfl ?_ ?_
+    refine BdInv_tables h1 rfl ?_ ?_
     · intro u st hu
       by_cases hu' : u = el
       · subst hu'; simp [exFin, aget_adel_same] at hu
@@ -137,8 +137,8 @@ theorem BInv_extract (s : St) (el : Nat) (h : BInv s) : BInv (extractIntoDiagram
           · simp [Slot.inB, hc]
         · simp [Slot.inB, hc]
 
-theorem BInv_mark (g : Grammar) (s : St) (el : Nat) (name : Option String) (f : Bool) (h : BInv s) :
-    BInv (markForExtraction g s el name f) := by
+theorem BdInv_mark (g : Grammar) (s : St) (el : Nat) (name : Option String) (f : Bool) (h : BdInv s) :
+    BdInv (markForExtraction g s el name f) := by
   cases hl : aget s.lookup el with
   | none =>
     have e : markForExtraction g s el name f = s := by
@@ -146,10 +146,10 @@ theorem BInv_mark (g : Grammar) (s : St) (el : Nat) (name : Option String) (f : 
     rw [e]; exact h
   | some st =>
     rw [mark_eq g s el name f st hl]
-    have h1 : BInv (setL s s.index el { st with extract := true, name := markName g st el name }) :=
-      BInv_setL s s.index el _ h (h.lk el st hl)
+    have h1 : BdInv (setL s s.index el { st with extract := true, name := markName g st el name }) :=
+      BdInv_setL s s.index el _ h (h.lk el st hl)
     split
-    · exact BInv_extract _ el h1
+    · exact BdInv_extract _ el h1
     · exact h1
 
 def noRefKw : Option PNode → Bool
@@ -162,23 +162,23 @@ theorem dispatch_noRef (g : Grammar) (o : Opts) (n : Node) (name : String) :
   simp only [apply_ite noRefKw]
   simp [noRefKw, Kw.inB, Slot.inB]
 
-theorem BInv_register (g : Grammar) (s : St) (el : Nat) (n : Node) (parent : Option Nat) (index : Nat)
-    (pn : PNode) (h : BInv s) (hk : pn.kw.inB 0 = true) : BInv (register g s el n parent index pn).2 := by
-  have hA := BInv_alloc s pn h (Kw.inB_mono (by omega) _ hk)
-  have h2 : BInv (setL (s.alloc pn).2 (s.index + 1) el
+theorem BdInv_register (g : Grammar) (s : St) (el : Nat) (n : Node) (parent : Option Nat) (index : Nat)
+    (pn : PNode) (h : BdInv s) (hk : pn.kw.inB 0 = true) : BdInv (register g s el n parent index pn).2 := by
+  have hA := BdInv_alloc s pn h (Kw.inB_mono (by omega) _ hk)
+  have h2 : BdInv (setL (s.alloc pn).2 (s.index + 1) el
       { converted := s.heap.length, parent := parent, parentIndex := index, number := s.index + 1 }) :=
-    BInv_setL _ _ el _ hA (by simp [St.alloc])
+    BdInv_setL _ _ el _ hA (by simp [St.alloc])
   unfold register
   simp only
   split
-  · exact BInv_mark g _ el _ false h2
+  · exact BdInv_mark g _ el _ false h2
   · exact h2
 
 /-! ### the recursion -/
 
 abbrev RecB (rec : Rec) : Prop :=
-  ∀ c p i h s r s', BInv s → rec c p i h s = some (r, s') →
-    BInv s' ∧ s.heap.length ≤ s'.heap.length ∧ (∀ r0, r = some r0 → r0 < s'.heap.length)
+  ∀ c p i h s r s', BdInv s → rec c p i h s = some (r, s') →
+    BdInv s' ∧ s.heap.length ≤ s'.heap.length ∧ (∀ r0, r = some r0 → r0 < s'.heap.length)
 
 theorem mem_insertAt (l : List Slot) (i : Nat) (v x : Slot) (h : x ∈ insertAt l i v) : x ∈ l ∨ x = v := by
   simp only [insertAt, List.mem_append, List.mem_cons] at h
@@ -188,17 +188,17 @@ theorem mem_insertAt (l : List Slot) (i : Nat) (v x : Slot) (h : x ∈ insertAt 
   · exact Or.inl (List.mem_of_mem_drop h)
 
 theorem stepKid_B (rec : Rec) (ret : Nat) (hrec : RecB rec) :
-    ∀ c i s i' s', BInv s → stepKid rec ret c i s = some (i', s') →
-      BInv s' ∧ s.heap.length ≤ s'.heap.length := by
+    ∀ c i s i' s', BdInv s → stepKid rec ret c i s = some (i', s') →
+      BdInv s' ∧ s.heap.length ≤ s'.heap.length := by
   intro c i s i' s' hB h
   unfold stepKid at h
-  have hB1 : BInv (addPlaceholder s ret i) ∧ (addPlaceholder s ret i).heap.length = s.heap.length := by
+  have hB1 : BdInv (addPlaceholder s ret i) ∧ (addPlaceholder s ret i).heap.length = s.heap.length := by
     unfold addPlaceholder
     have hn := node_inB hB ret
     split
     · rename_i l hl
       rw [hl] at hn
-      refine ⟨BInv_setKw s ret _ hB ?_, setKw_len _ _ _⟩
+      refine ⟨BdInv_setKw s ret _ hB ?_, setKw_len _ _ _⟩
       simp only [Kw.inB, List.all_eq_true] at hn ⊢
       intro x hx
       rcases mem_insertAt _ _ _ _ hx with hx | rfl
@@ -213,10 +213,10 @@ theorem stepKid_B (rec : Rec) (ret : Nat) (hrec : RecB rec) :
     have hn2 := node_inB hB2 ret
     split at h <;> simp only [Option.some.injEq, Prod.mk.injEq] at h <;> obtain ⟨_, rfl⟩ := h
     · rename_i r _ _ _
-      exact ⟨BInv_setKw s2 ret _ hB2 (by simp [Kw.inB, Slot.inB, hres r rfl]), by rw [setKw_len]; exact hlen⟩
+      exact ⟨BdInv_setKw s2 ret _ hB2 (by simp [Kw.inB, Slot.inB, hres r rfl]), by rw [setKw_len]; exact hlen⟩
     · rename_i r l hl _
       rw [hl] at hn2
-      refine ⟨BInv_setKw s2 ret _ hB2 ?_, by rw [setKw_len]; exact hlen⟩
+      refine ⟨BdInv_setKw s2 ret _ hB2 ?_, by rw [setKw_len]; exact hlen⟩
       simp only [Kw.inB, List.all_eq_true] at hn2 ⊢
       intro x hx
       rcases List.mem_or_eq_of_mem_set hx with hx | rfl
@@ -225,14 +225,14 @@ theorem stepKid_B (rec : Rec) (ret : Nat) (hrec : RecB rec) :
     · exact ⟨hB2, hlen⟩
     · rename_i l hl _
       rw [hl] at hn2
-      refine ⟨BInv_setKw s2 ret _ hB2 ?_, by rw [setKw_len]; exact hlen⟩
+      refine ⟨BdInv_setKw s2 ret _ hB2 ?_, by rw [setKw_len]; exact hlen⟩
       simp only [Kw.inB, List.all_eq_true] at hn2 ⊢
       intro x hx
       exact hn2 x (List.mem_of_mem_eraseIdx hx)
     · exact ⟨hB2, hlen⟩
 
 theorem loopKids_B (rec : Rec) (ret : Nat) (hrec : RecB rec) :
-    ∀ kids i s s', BInv s → loopKids rec ret kids i s = some s' → BInv s' ∧ s.heap.length ≤ s'.heap.length := by
+    ∀ kids i s s', BdInv s → loopKids rec ret kids i s = some s' → BdInv s' ∧ s.heap.length ≤ s'.heap.length := by
   intro kids
   induction kids with
   | nil => intro i s s' hB h; simp [loopKids] at h; exact h ▸ ⟨hB, Nat.le_refl _⟩
@@ -246,21 +246,21 @@ theorem loopKids_B (rec : Rec) (ret : Nat) (hrec : RecB rec) :
       obtain ⟨c1, c2⟩ := ih _ _ _ a h
       exact ⟨c1, Nat.le_trans b c2⟩
 
-theorem setComplete_B (s : St) (el : Nat) (h : BInv s) : BInv (setComplete s el) := by
+theorem setComplete_B (s : St) (el : Nat) (h : BdInv s) : BdInv (setComplete s el) := by
   unfold setComplete
   cases hl : aget s.lookup el with
   | none => exact h
-  | some st => exact BInv_setL s s.index el { st with complete := true } h (h.lk el st hl)
+  | some st => exact BdInv_setL s s.index el { st with complete := true } h (h.lk el st hl)
 
-theorem post_B (el : Nat) (n : Node) (hint : Option String) (ret : Nat) (s : St) (h : BInv s)
+theorem post_B (el : Nat) (n : Node) (hint : Option String) (ret : Nat) (s : St) (h : BdInv s)
     (hret : ret < s.heap.length) :
-    BInv (post el n hint ret s).2 ∧ s.heap.length ≤ (post el n hint ret s).2.heap.length ∧
+    BdInv (post el n hint ret s).2 ∧ s.heap.length ≤ (post el n hint ret s).2.heap.length ∧
       (∀ r0, (post el n hint ret s).1 = some r0 → r0 < (post el n hint ret s).2.heap.length) := by
-  have h1 : BInv (post1 n hint ret s).2 ∧ s.heap.length ≤ (post1 n hint ret s).2.heap.length ∧
+  have h1 : BdInv (post1 n hint ret s).2 ∧ s.heap.length ≤ (post1 n hint ret s).2.heap.length ∧
       (post1 n hint ret s).1 < (post1 n hint ret s).2.heap.length := by
     unfold post1
     split
-    · exact ⟨BInv_alloc s _ h rfl, by simp [St.alloc], by simp [St.alloc]⟩
+    · exact ⟨BdInv_alloc s _ h rfl, by simp [St.alloc], by simp [St.alloc]⟩
     · exact ⟨h, Nat.le_refl _, hret⟩
   obtain ⟨a1, a2, a3⟩ := h1
   have h2 := setComplete_B _ el a1
@@ -270,9 +270,9 @@ theorem post_B (el : Nat) (n : Node) (hint : Option String) (ret : Nat) (s : St)
   simp only
   split
   · split
-    · have h3 := BInv_extract _ el h2
+    · have h3 := BdInv_extract _ el h2
       have hlen3 := (HS_extract (setComplete (post1 n hint ret s).2 el) el).1
-      refine ⟨BInv_alloc _ _ h3 rfl, ?_, ?_⟩
+      refine ⟨BdInv_alloc _ _ h3 rfl, ?_, ?_⟩
       · simp only [newNT, St.alloc, List.length_append, List.length_singleton]; omega
       · intro r0 hr0
         simp only [newNT, St.alloc, Option.some.injEq] at hr0
@@ -289,16 +289,16 @@ theorem post_B (el : Nat) (n : Node) (hint : Option String) (ret : Nat) (s : St)
     simp only [Option.some.injEq] at hr0
     omega
 
-theorem annotate_B (o : Opts) (n : Node) (r : Option Nat) (s : St) (h : BInv s)
+theorem annotate_B (o : Opts) (n : Node) (r : Option Nat) (s : St) (h : BdInv s)
     (hr : ∀ r0, r = some r0 → r0 < s.heap.length) :
-    BInv (annotate o n r s).2 ∧ s.heap.length ≤ (annotate o n r s).2.heap.length ∧
+    BdInv (annotate o n r s).2 ∧ s.heap.length ≤ (annotate o n r s).2.heap.length ∧
       (∀ r0, (annotate o n r s).1 = some r0 → r0 < (annotate o n r s).2.heap.length) := by
   unfold annotate
   split
   · exact ⟨h, Nat.le_refl _, fun r0 hr0 => absurd hr0 (by simp)⟩
   · rename_i ref
     split
-    · refine ⟨BInv_alloc s _ h ?_, by simp [St.alloc], ?_⟩
+    · refine ⟨BdInv_alloc s _ h ?_, by simp [St.alloc], ?_⟩
       · have := hr ref rfl
         simp only [Kw.inB, Slot.inB, decide_eq_true_eq]; omega
       · intro r0 hr0
@@ -328,7 +328,7 @@ theorem conv_B (g : Grammar) (o : Opts) : ∀ fuel, RecB (conv g o fuel) := by
       | some rs =>
         obtain ⟨r1, s1⟩ := rs
         simp only [hb, Option.some.injEq] at hc
-        suffices hh : BInv s1 ∧ s.heap.length ≤ s1.heap.length ∧ (∀ r0, r1 = some r0 → r0 < s1.heap.length) by
+        suffices hh : BdInv s1 ∧ s.heap.length ≤ s1.heap.length ∧ (∀ r0, r1 = some r0 → r0 < s1.heap.length) by
           obtain ⟨a1, a2, a3⟩ := annotate_B o n r1 s1 hh.1 hh.2.2
           rw [hc] at a1 a2 a3
           exact ⟨a1, Nat.le_trans hh.2.1 a2, a3⟩
@@ -346,9 +346,9 @@ theorem conv_B (g : Grammar) (o : Opts) : ∀ fuel, RecB (conv g o fuel) := by
           · split at hp
             · simp only [Pre.ret.injEq] at hp
               obtain ⟨rfl, rfl⟩ := hp
-              have hm := BInv_mark g s el h false hB
+              have hm := BdInv_mark g s el h false hB
               have hlm := (HS_mark g s el h false).1
-              refine ⟨BInv_alloc _ _ hm rfl, ?_, ?_⟩
+              refine ⟨BdInv_alloc _ _ hm rfl, ?_, ?_⟩
               · simp only [newNT, St.alloc, List.length_append, List.length_singleton]; omega
               · intro r0 hr0
                 simp only [newNT, St.alloc, Option.some.injEq] at hr0
@@ -356,7 +356,7 @@ theorem conv_B (g : Grammar) (o : Opts) : ∀ fuel, RecB (conv g o fuel) := by
                 omega
             · simp only [Pre.ret.injEq] at hp
               obtain ⟨rfl, rfl⟩ := hp
-              refine ⟨BInv_alloc _ _ hB rfl, by simp [newNT, St.alloc], ?_⟩
+              refine ⟨BdInv_alloc _ _ hB rfl, by simp [newNT, St.alloc], ?_⟩
               intro r0 hr0
               simp only [newNT, St.alloc, Option.some.injEq] at hr0
               simp only [newNT, St.alloc, List.length_append, List.length_singleton]
@@ -373,7 +373,7 @@ theorem conv_B (g : Grammar) (o : Opts) : ∀ fuel, RecB (conv g o fuel) := by
                 · exact absurd hp (by simp)
         | loop ret s0 =>
           simp only [hp] at hb
-          have hreg : BInv s0 ∧ ret < s0.heap.length ∧ s.heap.length ≤ s0.heap.length := by
+          have hreg : BdInv s0 ∧ ret < s0.heap.length ∧ s.heap.length ≤ s0.heap.length := by
             unfold pre at hp
             split at hp
             · exact absurd hp (by simp)
@@ -403,7 +403,7 @@ theorem conv_B (g : Grammar) (o : Opts) : ∀ fuel, RecB (conv g o fuel) := by
                         simp only [List.isEmpty_iff] at this
                         exact Or.inl (by rw [this])) false (fun _ _ => rfl))
                     obtain ⟨e1, e2, a, ha, _⟩ := hl
-                    refine ⟨BInv_register g s el n p i pn hB hk, ?_, e2.hlen⟩
+                    refine ⟨BdInv_register g s el n p i pn hB hk, ?_, e2.hlen⟩
                     rw [e1]
                     exact (List.getElem?_eq_some_iff.mp ha).1
           obtain ⟨hB0, hret0, hlen0⟩ := hreg
@@ -416,5 +416,27 @@ theorem conv_B (g : Grammar) (o : Opts) : ∀ fuel, RecB (conv g o fuel) := by
             rw [hb] at q1 q2 q3
             dsimp only at q1 q2 q3
             exact ⟨q1, by omega, q3⟩
+
+theorem BdInv_init : BdInv {} :=
+  ⟨fun _ h => absurd h (by simp), fun _ _ h => absurd h (by simp), fun _ h => absurd h (by simp)⟩
+
+theorem convertRoot_B (g : Grammar) (o : Opts) (fuel root : Nat) (s : St)
+    (h : convertRoot g o fuel root = some s) : BdInv s := by
+  unfold convertRoot at h
+  split at h
+  · exact absurd h (by simp)
+  · rename_i r s0 hc
+    obtain ⟨hB, _, _⟩ := conv_B g o fuel root none 0 none {} r s0 BdInv_init hc
+    split at h
+    · rename_i st hst
+      simp only [Option.some.injEq] at h
+      subst h
+      split
+      · exact BdInv_mark g _ root none true
+          (BdInv_setL s0 s0.index root { st with name := some "" } hB (hB.lk root st hst))
+      · exact BdInv_mark g s0 root none true hB
+    · simp only [Option.some.injEq] at h
+      subst h
+      exact hB
 
 end PP.Diagram
